@@ -33,6 +33,9 @@ C05_FUNCS = ["quantile_score", "quantile_interval_score", "interval_score", "mse
              "multiplicative_bias", "pbias", "pearsonr", "kge"]
 
 
+# counters that every complete run must have incremented (harness self-check, see core.run_check)
+EXPECT_COUNTS = ['pinball_grid_points', 'interval_grid_points', 'angular_grid_points', 'conditioning', 'label_oracle', 'pandas:']
+
 def kernel_grids(ctx):
     """regenerated kernel vs proved specification vs implementation on the full tie grid"""
     S = scorelib.S()
